@@ -47,6 +47,12 @@ CLAIMED = {
  "C15": ("differential monitor: one rendering evaluated by two evaluators inside the restricted shared domain",
          "exploration", "i64 vs number on integer trees, f64 vs number on the shared grammar, complex vs f64 on real operands, decimal vs f64 on positive well-conditioned trees; the reference only decides the restriction.",
          "restriction decided by a plain double evaluation and the i64 reference", "§5 C15"),
+ "C16": ("offline history comparator (sequential / permuted / 16-thread / fresh-process observations keyed by call) + Miri many-seeds and ThreadSanitizer tripwires",
+         "exploration", "Each worker records the outcome of every distinct call in a stateful-looking history and compares every later observation of the same call - in a shuffled order, on 16 concurrent threads with yield injection at the counted steps, and as the first call of a fresh process; Miri (8 seeds quick, 32 thorough) and TSan (thorough) watch a multi-threaded replay for data races and UB.",
+         "state keyed on something the histories never vary is out of reach; sanitizers only see what the replay executes", "§5 C16"),
+ "C17": ("cross-configuration log comparison over all 31 real feature-subset builds + compile probes for the export set",
+         "exploration", "Every non-empty feature subset is built for real through a forwarding probe crate; selected evaluators must resolve, an unselected one must not; a corpus is run in every configuration and each outcome compared with the all-features build. Exhaustive in the configuration dimension, sampled in the input dimension.",
+         "cargo/rustc verdicts are the observed events for the build and export sub-claims", "§5 C17"),
  "C18": ("reference-model monitor: bit-level decode of the double",
          "exploration", "Number::from on the complete structured boundary set (every power of two +-2 ulp, 2^63 neighbourhood, zeros, subnormals, NaNs, infinities) and millions of random bit patterns biased to the deciding exponent range; expected variant and payload computed with integer arithmetic.",
          "exhaustive on the structured set only", "§5 C18"),
@@ -71,7 +77,8 @@ m = {
    "add_only": True
  },
  "engines": [
-   {"name":"scv","path":"harness/","serves_properties":sorted(CLAIMED),"kind_free_text":"Rust harness: recording boundary around the public API, reference-model / metamorphic / invariant-hook monitors, worker processes with abort and hang pinning"}
+   {"name":"scv","path":"harness/","serves_properties":sorted(CLAIMED),"kind_free_text":"Rust harness: recording boundary around the public API, reference-model / metamorphic / invariant-hook monitors, worker processes with abort and hang pinning"},
+   {"name":"stages","path":"stages.py","serves_properties":["C01","C16","C17"],"kind_free_text":"side stages: Miri, AddressSanitizer, ThreadSanitizer, valgrind memcheck over the scv_san workload; 31 feature-subset builds of harness/probes"}
  ],
  "checks": [],
  "not_applicable": [],
